@@ -471,6 +471,13 @@ def exc_escape(ix, R):
                 # bare re-raise inside a handler
                 continue
             r = ix.resolve_name(f.module, exc.split('.')[0]) if exc else None
+            if isinstance(r, FuncInfo):
+                # `raise make_error(...)`: a helper that only builds the exception - the class it constructs is what is raised
+                body_ = [st for st in r.body() if not (isinstance(st, ast.Expr) and isinstance(st.value, ast.Constant))]
+                if len(body_) == 1 and isinstance(body_[0], ast.Return) and isinstance(body_[0].value, ast.Call):
+                    from sa.algebra import dotted as _dotted
+                    exc = _dotted(body_[0].value.func) or exc
+                    r = ix.resolve_name(r.module, exc.split('.')[0])
             if isinstance(r, ClassInfo) and ix.is_subclass(r, base):
                 n_caught += 1
                 R.ok('4.exc', 'EXC', site, 'raise %s is an InvalidModelException (returns NaN)' % exc,
